@@ -1,5 +1,7 @@
 import Driver.Common
 import JaqVerif.C05.Kernels
+import JaqVerif.C05.Kernels2
+import JaqVerif.C05.Compile
 import JaqVerif.Val.Utf8
 
 namespace Jaq.Driver.C05
@@ -28,6 +30,77 @@ def startsOf (s : String) : List Nat :=
 /-- string of characters from UTF-8 bytes (the requests only carry valid UTF-8) -/
 def charsOfBytes (b : List UInt8) : List Char :=
   (Utf8.chunks b).map fun (c, _) => Char.ofNat (c.getD 0xFFFD)
+
+def natList (s : String) : List Nat :=
+  if s == "-" then [] else (s.splitOn ",").filterMap natOf
+
+def showNats (l : List Nat) : String :=
+  if l.isEmpty then "-" else ",".intercalate (l.map toString)
+
+def pairList (s : String) : List (Nat × Nat) :=
+  if s == "-" then [] else (s.splitOn ",").filterMap fun p =>
+    match p.splitOn ":" with
+    | [a, b] => match natOf a, natOf b with
+      | some a, some b => some (a, b)
+      | _, _ => none
+    | _ => none
+
+def shapeOf (s : String) : Option IShape :=
+  match s.toList with
+  | ['o'] => some .other
+  | 'b' :: r => (natOfDecChars r).map .bstr
+  | 't' :: r => (natOfDecChars r).map .tstr
+  | 'a' :: r => (natOfDecChars r).map .arr
+  | _ => none
+
+def numOf (tok : String) : Option Num :=
+  match Val.parseVXs [tok] 1 with
+  | some ([.num n], []) => some n
+  | _ => none
+
+def sigOf (s : String) : Option (List BK) :=
+  if s == "-" then some [] else s.toList.mapM fun c => if c = 'v' then some BK.var else if c = 'f' then some BK.fn else none
+
+/-- parser of the prefix token syntax of `CTm Nat` (see `skeleton` in harness/src/props/c05.rs):
+`L` | `V x` | `B x` | `C name arity <args>` | `N <l> <r>` | `La x <t>` | `Bi n x1…xn <l> <r> <keys>` |
+`D name n (v|f)x1…(v|f)xn <body> <rest>` -/
+partial def parseCTm : List String → Option (CTm Nat × List String)
+  | "L" :: r => some (.leaf, r)
+  | "V" :: x :: r => (natOf x).map fun x => (.var x, r)
+  | "B" :: x :: r => (natOf x).map fun x => (.brk x, r)
+  | "C" :: n :: a :: r => do
+    let n ← natOf n
+    let a ← natOf a
+    let (args, r) ← parseCTm r
+    pure (.call n a args, r)
+  | "N" :: r => do
+    let (l, r) ← parseCTm r
+    let (t, r) ← parseCTm r
+    pure (.node l t, r)
+  | "La" :: x :: r => do
+    let x ← natOf x
+    let (t, r) ← parseCTm r
+    pure (.label x t, r)
+  | "Bi" :: n :: r => do
+    let n ← natOf n
+    let vars ← (r.take n).mapM natOf
+    let r := r.drop n
+    let (l, r) ← parseCTm r
+    let (t, r) ← parseCTm r
+    let (k, r) ← parseCTm r
+    pure (.bind l vars t k, r)
+  | "D" :: name :: n :: r => do
+    let name ← natOf name
+    let n ← natOf n
+    let args ← (r.take n).mapM fun a => match a.toList with
+      | 'v' :: x => (natOfDecChars x).map fun x => (true, x)
+      | 'f' :: x => (natOfDecChars x).map fun x => (false, x)
+      | _ => none
+    let r := r.drop n
+    let (b, r) ← parseCTm r
+    let (t, r) ← parseCTm r
+    pure (.defn name args b t, r)
+  | _ => none
 
 def handlers : List (String × Handler) := [
   -- c05.index <vx num> <len>
@@ -71,7 +144,15 @@ def handlers : List (String × Handler) := [
       | some _, some _, some _, some _ => "err"
       | _, _, _, _ => "bad-request"
     | _ => "bad-request"),
-  -- c05.implode <int> / c05.implode-fixed <int>
+  -- c05.implode <int> (current tree) / c05.implode-asfound <int> (before 496d12c)
+  ("c05.implode-asfound", fun toks => match toks with
+    | [i] => match intOfDecChars i.toList with
+      | some i => showP (fun p => match p with
+          | .byte b => "x" ++ hexOfBytes [UInt8.ofNat b]
+          | .char c => "x" ++ hexOfBytes (Utf8.encode c)
+          | .err => "err") (implodeStepAsFound i)
+      | none => "bad-request"
+    | _ => "bad-request"),
   ("c05.implode", fun toks => match toks with
     | [i] => match intOfDecChars i.toList with
       | some i => showP (fun p => match p with
@@ -80,23 +161,15 @@ def handlers : List (String × Handler) := [
           | .err => "err") (implodeStep i)
       | none => "bad-request"
     | _ => "bad-request"),
-  ("c05.implode-fixed", fun toks => match toks with
-    | [i] => match intOfDecChars i.toList with
-      | some i => showP (fun p => match p with
-          | .byte b => "x" ++ hexOfBytes [UInt8.ofNat b]
-          | .char c => "x" ++ hexOfBytes (Utf8.encode c)
-          | .err => "err") (implodeStepFixed i)
-      | none => "bad-request"
-    | _ => "bad-request"),
-  -- c05.space <x hex utf8> / c05.space-fixed: characters left after `space`, or `detached`
-  ("c05.space", fun toks => match toks with
+  -- c05.space <x hex utf8> (current tree) / c05.space-asfound: characters left after `space`, or `detached`
+  ("c05.space-asfound", fun toks => match toks with
     | [h] => match bytesOfHex (h.drop 1).toString with
       | some b => match spaceAll false (charsOfBytes b) with
         | .suffix t => s!"in {t.length}"
         | .detached => "detached"
       | none => "bad-request"
     | _ => "bad-request"),
-  ("c05.space-fixed", fun toks => match toks with
+  ("c05.space", fun toks => match toks with
     | [h] => match bytesOfHex (h.drop 1).toString with
       | some b => match spaceAll true (charsOfBytes b) with
         | .suffix t => s!"in {t.length}"
@@ -108,6 +181,57 @@ def handlers : List (String × Handler) := [
     | [n] => match natOf n with
       | some n => showP (fun (i : Int) => s!"{i}") (cborNegative n)
       | none => "bad-request"
+    | _ => "bad-request")  ,
+  -- c05.regexoff <x hex utf8 haystack> <byte starts of the captures, in the order of Match::new>
+  ("c05.regexoff", fun toks => match toks with
+    | [h, st] => match bytesOfHex (h.drop 1).toString with
+      | some b => showP showNats (matchOffsets true ⟨Utf8.starts b ++ [b.length], 0⟩ (natList st))
+      | none => "bad-request"
+    | _ => "bad-request"),
+  -- c05.mismatch <len> <s:e,…>: lengths of the mismatch slices
+  ("c05.mismatch", fun toks => match toks with
+    | [len, ms] => match natOf len with
+      | some len => showP (fun r => showNats (r.map fun p => p.2 - p.1)) (mismatches len 0 (pairList ms))
+      | none => "bad-request"
+    | _ => "bad-request"),
+  -- c05.stripfix <pre|suf> <x hex> <x hex fix>
+  ("c05.stripfix", fun toks => match toks with
+    | [k, s, f] => match bytesOfHex (s.drop 1).toString, bytesOfHex (f.drop 1).toString with
+      | some s, some f => showP (fun (r : Nat × Nat) => s!"{r.1} {r.2}")
+          (stripFix (if k == "pre" then stripPrefix else stripSuffix) s f)
+      | _, _ => "bad-request"
+    | _ => "bad-request"),
+  -- c05.conv <i32|byte> <vx number>
+  ("c05.conv", fun toks => match toks with
+    | [k, n] => match numOf n with
+      | some n =>
+        if k == "i32" then (match tryAsI32 n with | some _ => "some" | none => "none")
+        else (match toByte n with | some b => s!"some {b}" | none => "none")
+      | none => "bad-request"
+    | _ => "bad-request"),
+  -- c05.bsearch <ok|err> <i>
+  ("c05.bsearch", fun toks => match toks with
+    | [k, i] => match natOf i with
+      | some i => showP (fun (v : Int) => s!"{v}") (bsearchIdx (if k == "ok" then .ok i else .error i))
+      | none => "bad-request"
+    | _ => "bad-request"),
+  -- c05.indices <shape x> <shape y> <starts of x>
+  ("c05.indices", fun toks => match toks with
+    | [x, y, st] => match shapeOf x, shapeOf y with
+      | some x, some y => showP (fun o => match o with | some _ => "ok" | none => "err") (indicesKernel x y (natList st))
+      | _, _ => "bad-request"
+    | _ => "bad-request"),
+  -- c05.envshape <signature: string of v/f, or ->
+  ("c05.envshape", fun toks => match toks with
+    | [sg] => match sigOf sg with
+      | some σ => showP (fun (e : List BK) => s!"ok {e.length}") (popAll σ.reverse (bindVars σ []))
+      | none => "bad-request"
+    | _ => "bad-request"),
+  -- c05.setup: compiling the filters of the correspondence cases (must not panic)
+  ("c05.setup", fun _ => "ok"),
+  -- c05.cwalk <prefix tokens of a CTm>
+  ("c05.cwalk", fun toks => match parseCTm toks with
+    | some (t, []) => showP (fun (s : Locals Nat) => s!"ok {s.vars.total}") (cwalk t Locals.empty)
     | _ => "bad-request")
 ]
 
